@@ -385,27 +385,27 @@ impl<Aux> Vm<'_, Aux> {
             match instr {
                 Instruction::InitTable => {
                     let res = self.init_table().map_err(|err| {
-                        payload_to_error(err, *instr_ptr, &self.runtime_data.call_stack)
+                        payload_to_error(err, src_ptr, &self.runtime_data.call_stack)
                     })?;
                     self.stack_push(Value::Object(res.0)).map_err(|err| {
-                        payload_to_error(err, *instr_ptr, &self.runtime_data.call_stack)
+                        payload_to_error(err, src_ptr, &self.runtime_data.call_stack)
                     })?;
                 }
                 Instruction::GetProperty => {
                     let key = self.stack_pop();
                     let instance = self.stack_pop();
                     let table = get_table(&instance).map_err(|err| {
-                        payload_to_error(err, *instr_ptr, &self.runtime_data.call_stack)
+                        payload_to_error(err, src_ptr, &self.runtime_data.call_stack)
                     })?;
                     let result = table.get(&key).copied().unwrap_or(Value::Nil);
                     self.stack_push(result).map_err(|err| {
-                        payload_to_error(err, *instr_ptr, &self.runtime_data.call_stack)
+                        payload_to_error(err, src_ptr, &self.runtime_data.call_stack)
                     })?;
                 }
                 Instruction::SetProperty => {
                     let [key, mut instance, value] = self.runtime_data.value_stack.pop_n::<3>();
                     let table = get_table_mut(&mut instance).map_err(|err| {
-                        payload_to_error(err, *instr_ptr, &self.runtime_data.call_stack)
+                        payload_to_error(err, src_ptr, &self.runtime_data.call_stack)
                     })?;
                     table
                         .insert(key, value)
@@ -414,17 +414,17 @@ impl<Aux> Vm<'_, Aux> {
                             ExecutionErrorPayload::OutOfMemory
                         })
                         .map_err(|err| {
-                            payload_to_error(err, *instr_ptr, &self.runtime_data.call_stack)
+                            payload_to_error(err, src_ptr, &self.runtime_data.call_stack)
                         })?;
                 }
                 Instruction::BeginForEach => {
                     instr_execution::begin_for_each(self, &program.bytecode, instr_ptr).map_err(
-                        |err| payload_to_error(err, *instr_ptr, &self.runtime_data.call_stack),
+                        |err| payload_to_error(err, src_ptr, &self.runtime_data.call_stack),
                     )?;
                 }
                 Instruction::ForEach => {
                     instr_execution::for_each(self, &program.bytecode, instr_ptr).map_err(
-                        |err| payload_to_error(err, *instr_ptr, &self.runtime_data.call_stack),
+                        |err| payload_to_error(err, src_ptr, &self.runtime_data.call_stack),
                     )?;
                 }
                 Instruction::GotoIfTrue => {
@@ -459,7 +459,7 @@ impl<Aux> Vm<'_, Aux> {
                     self.stack_push(a).unwrap();
                 }
                 Instruction::ScalarNil => self.stack_push(Value::Nil).map_err(|err| {
-                    payload_to_error(err, *instr_ptr, &self.runtime_data.call_stack)
+                    payload_to_error(err, src_ptr, &self.runtime_data.call_stack)
                 })?,
                 Instruction::ClearStack => {
                     let offset = self
@@ -472,12 +472,12 @@ impl<Aux> Vm<'_, Aux> {
                 }
                 Instruction::SetLocalVar => {
                     instr_execution::set_local(self, &program.bytecode, instr_ptr).map_err(
-                        |err| payload_to_error(err, *instr_ptr, &self.runtime_data.call_stack),
+                        |err| payload_to_error(err, src_ptr, &self.runtime_data.call_stack),
                     )?;
                 }
                 Instruction::ReadLocalVar => {
                     instr_execution::get_local(self, &program.bytecode, instr_ptr).map_err(
-                        |err| payload_to_error(err, *instr_ptr, &self.runtime_data.call_stack),
+                        |err| payload_to_error(err, src_ptr, &self.runtime_data.call_stack),
                     )?;
                 }
                 Instruction::SetGlobalVar => {
@@ -487,13 +487,13 @@ impl<Aux> Vm<'_, Aux> {
                         instr_ptr,
                     )
                     .map_err(|err| {
-                        payload_to_error(err, *instr_ptr, &self.runtime_data.call_stack)
+                        payload_to_error(err, src_ptr, &self.runtime_data.call_stack)
                     })?;
                 }
                 Instruction::ReadGlobalVar => {
                     instr_execution::instr_read_var(&mut self.runtime_data, instr_ptr, program)
                         .map_err(|err| {
-                            payload_to_error(err, *instr_ptr, &self.runtime_data.call_stack)
+                            payload_to_error(err, src_ptr, &self.runtime_data.call_stack)
                         })?;
                 }
                 Instruction::Pop => {
@@ -502,18 +502,18 @@ impl<Aux> Vm<'_, Aux> {
                 Instruction::CallFunction => {
                     instr_execution::instr_call_function(src_ptr, instr_ptr, program, self)
                         .map_err(|err| {
-                            payload_to_error(err, *instr_ptr, &self.runtime_data.call_stack)
+                            payload_to_error(err, src_ptr, &self.runtime_data.call_stack)
                         })?;
                 }
                 Instruction::Return => {
                     instr_execution::instr_return(self, instr_ptr).map_err(|err| {
-                        payload_to_error(err, *instr_ptr, &self.runtime_data.call_stack)
+                        payload_to_error(err, src_ptr, &self.runtime_data.call_stack)
                     })?;
                 }
                 Instruction::Exit => return Ok(()),
                 Instruction::CopyLast => {
                     instr_execution::instr_copy_last(self).map_err(|err| {
-                        payload_to_error(err, *instr_ptr, &self.runtime_data.call_stack)
+                        payload_to_error(err, src_ptr, &self.runtime_data.call_stack)
                     })?;
                 }
                 Instruction::NativeFunctionPointer => {
@@ -523,11 +523,11 @@ impl<Aux> Vm<'_, Aux> {
                         instr_execution::read_str(&mut (handle as usize), program.data.as_slice())
                             .ok_or(ExecutionErrorPayload::InvalidArgument { context: None })
                             .map_err(|err| {
-                                payload_to_error(err, *instr_ptr, &self.runtime_data.call_stack)
+                                payload_to_error(err, src_ptr, &self.runtime_data.call_stack)
                             })?;
                     let handle = Handle::from_str(fun_name).unwrap();
                     let obj = self.init_native_function(handle).map_err(|err| {
-                        payload_to_error(err, *instr_ptr, &self.runtime_data.call_stack)
+                        payload_to_error(err, src_ptr, &self.runtime_data.call_stack)
                     })?;
                     let val = Value::Object(obj.0);
                     self.runtime_data
@@ -537,7 +537,7 @@ impl<Aux> Vm<'_, Aux> {
                         .map_err(|err| {
                             // the object stays in the object list and is reclaimed by the next
                             // collection or clear
-                            payload_to_error(err, *instr_ptr, &self.runtime_data.call_stack)
+                            payload_to_error(err, src_ptr, &self.runtime_data.call_stack)
                         })?;
                 }
                 Instruction::FunctionPointer => {
@@ -547,7 +547,7 @@ impl<Aux> Vm<'_, Aux> {
                         unsafe { instr_execution::decode_value(&program.bytecode, instr_ptr) };
 
                     let obj = self.init_function(hash, arity).map_err(|err| {
-                        payload_to_error(err, *instr_ptr, &self.runtime_data.call_stack)
+                        payload_to_error(err, src_ptr, &self.runtime_data.call_stack)
                     })?;
 
                     let val = Value::Object(obj.0);
@@ -559,7 +559,7 @@ impl<Aux> Vm<'_, Aux> {
                         .map_err(|err| {
                             // the object stays in the object list and is reclaimed by the next
                             // collection or clear
-                            payload_to_error(err, *instr_ptr, &self.runtime_data.call_stack)
+                            payload_to_error(err, src_ptr, &self.runtime_data.call_stack)
                         })?;
                 }
                 Instruction::Closure => {
@@ -569,7 +569,7 @@ impl<Aux> Vm<'_, Aux> {
                         unsafe { instr_execution::decode_value(&program.bytecode, instr_ptr) };
 
                     let obj = self.init_closure(hash, arity).map_err(|err| {
-                        payload_to_error(err, *instr_ptr, &self.runtime_data.call_stack)
+                        payload_to_error(err, src_ptr, &self.runtime_data.call_stack)
                     })?;
 
                     let val = Value::Object(obj.0);
@@ -581,7 +581,7 @@ impl<Aux> Vm<'_, Aux> {
                         .map_err(|err| {
                             // the object stays in the object list and is reclaimed by the next
                             // collection or clear
-                            payload_to_error(err, *instr_ptr, &self.runtime_data.call_stack)
+                            payload_to_error(err, src_ptr, &self.runtime_data.call_stack)
                         })?;
                 }
                 Instruction::ScalarInt => {
@@ -592,7 +592,7 @@ impl<Aux> Vm<'_, Aux> {
                         }))
                         .map_err(|_| ExecutionErrorPayload::Stackoverflow)
                         .map_err(|err| {
-                            payload_to_error(err, *instr_ptr, &self.runtime_data.call_stack)
+                            payload_to_error(err, src_ptr, &self.runtime_data.call_stack)
                         })?;
                 }
                 Instruction::ScalarFloat => {
@@ -603,7 +603,7 @@ impl<Aux> Vm<'_, Aux> {
                         }))
                         .map_err(|_| ExecutionErrorPayload::Stackoverflow)
                         .map_err(|err| {
-                            payload_to_error(err, *instr_ptr, &self.runtime_data.call_stack)
+                            payload_to_error(err, src_ptr, &self.runtime_data.call_stack)
                         })?;
                 }
                 Instruction::Not => {
@@ -611,74 +611,74 @@ impl<Aux> Vm<'_, Aux> {
                     let value = !value.as_bool();
                     self.stack_push(Value::Integer(value as i64))
                         .map_err(|err| {
-                            payload_to_error(err, *instr_ptr, &self.runtime_data.call_stack)
+                            payload_to_error(err, src_ptr, &self.runtime_data.call_stack)
                         })?;
                 }
                 Instruction::And => self
                     .binary_op(|a, b| Value::from(a.as_bool() && b.as_bool()))
                     .map_err(|err| {
-                        payload_to_error(err, *instr_ptr, &self.runtime_data.call_stack)
+                        payload_to_error(err, src_ptr, &self.runtime_data.call_stack)
                     })?,
                 Instruction::Or => self
                     .binary_op(|a, b| Value::from(a.as_bool() || b.as_bool()))
                     .map_err(|err| {
-                        payload_to_error(err, *instr_ptr, &self.runtime_data.call_stack)
+                        payload_to_error(err, src_ptr, &self.runtime_data.call_stack)
                     })?,
                 Instruction::Xor => self
                     .binary_op(|a, b| Value::from(a.as_bool() ^ b.as_bool()))
                     .map_err(|err| {
-                        payload_to_error(err, *instr_ptr, &self.runtime_data.call_stack)
+                        payload_to_error(err, src_ptr, &self.runtime_data.call_stack)
                     })?,
                 Instruction::Add => self.binary_op(|a, b| a + b).map_err(|err| {
-                    payload_to_error(err, *instr_ptr, &self.runtime_data.call_stack)
+                    payload_to_error(err, src_ptr, &self.runtime_data.call_stack)
                 })?,
                 Instruction::Sub => self.binary_op(|a, b| a - b).map_err(|err| {
-                    payload_to_error(err, *instr_ptr, &self.runtime_data.call_stack)
+                    payload_to_error(err, src_ptr, &self.runtime_data.call_stack)
                 })?,
                 Instruction::Mul => self.binary_op(|a, b| a * b).map_err(|err| {
-                    payload_to_error(err, *instr_ptr, &self.runtime_data.call_stack)
+                    payload_to_error(err, src_ptr, &self.runtime_data.call_stack)
                 })?,
                 Instruction::Div => self.binary_op(|a, b| a / b).map_err(|err| {
-                    payload_to_error(err, *instr_ptr, &self.runtime_data.call_stack)
+                    payload_to_error(err, src_ptr, &self.runtime_data.call_stack)
                 })?,
                 Instruction::Equals => self.binary_op(|a, b| (a == b).into()).map_err(|err| {
-                    payload_to_error(err, *instr_ptr, &self.runtime_data.call_stack)
+                    payload_to_error(err, src_ptr, &self.runtime_data.call_stack)
                 })?,
                 Instruction::NotEquals => {
                     self.binary_op(|a, b| (a != b).into()).map_err(|err| {
-                        payload_to_error(err, *instr_ptr, &self.runtime_data.call_stack)
+                        payload_to_error(err, src_ptr, &self.runtime_data.call_stack)
                     })?
                 }
                 Instruction::Less => self.binary_op(|a, b| (a < b).into()).map_err(|err| {
-                    payload_to_error(err, *instr_ptr, &self.runtime_data.call_stack)
+                    payload_to_error(err, src_ptr, &self.runtime_data.call_stack)
                 })?,
                 Instruction::LessOrEq => self.binary_op(|a, b| (a <= b).into()).map_err(|err| {
-                    payload_to_error(err, *instr_ptr, &self.runtime_data.call_stack)
+                    payload_to_error(err, src_ptr, &self.runtime_data.call_stack)
                 })?,
                 Instruction::StringLiteral => instr_execution::instr_string_literal(
                     self, instr_ptr, program,
                 )
-                .map_err(|err| payload_to_error(err, *instr_ptr, &self.runtime_data.call_stack))?,
+                .map_err(|err| payload_to_error(err, src_ptr, &self.runtime_data.call_stack))?,
                 Instruction::CallNative => {
                     instr_execution::execute_call_native(self, instr_ptr, &program.bytecode)
                         .map_err(|err| {
-                            payload_to_error(err, *instr_ptr, &self.runtime_data.call_stack)
+                            payload_to_error(err, src_ptr, &self.runtime_data.call_stack)
                         })?
                 }
                 Instruction::Len => instr_execution::instr_len(self).map_err(|err| {
-                    payload_to_error(err, *instr_ptr, &self.runtime_data.call_stack)
+                    payload_to_error(err, src_ptr, &self.runtime_data.call_stack)
                 })?,
                 Instruction::NthRow => {
                     let [i, mut instance] = self.runtime_data.value_stack.pop_n::<2>();
                     let table = get_table_mut(&mut instance).map_err(|err| {
-                        payload_to_error(err, *instr_ptr, &self.runtime_data.call_stack)
+                        payload_to_error(err, src_ptr, &self.runtime_data.call_stack)
                     })?;
                     let i = i.as_int().ok_or_else(|| {
                         payload_to_error(
                             ExecutionErrorPayload::invalid_argument(
                                 "Input must be an integer".to_string(),
                             ),
-                            *instr_ptr,
+                            src_ptr,
                             &self.runtime_data.call_stack,
                         )
                     })?;
@@ -687,7 +687,7 @@ impl<Aux> Vm<'_, Aux> {
                             ExecutionErrorPayload::invalid_argument(
                                 "Input must be non-negative".to_string(),
                             ),
-                            *instr_ptr,
+                            src_ptr,
                             &self.runtime_data.call_stack,
                         ));
                     }
@@ -713,50 +713,50 @@ impl<Aux> Vm<'_, Aux> {
                         Ok(())
                     })()
                     .map_err(|err| {
-                        payload_to_error(err, *instr_ptr, &self.runtime_data.call_stack)
+                        payload_to_error(err, src_ptr, &self.runtime_data.call_stack)
                     })?;
                 }
                 Instruction::AppendTable => {
                     let mut instance = self.stack_pop();
                     let value = self.stack_pop();
                     let table = get_table_mut(&mut instance).map_err(|err| {
-                        payload_to_error(err, *instr_ptr, &self.runtime_data.call_stack)
+                        payload_to_error(err, src_ptr, &self.runtime_data.call_stack)
                     })?;
                     table.append(value).map_err(|err| {
-                        payload_to_error(err, *instr_ptr, &self.runtime_data.call_stack)
+                        payload_to_error(err, src_ptr, &self.runtime_data.call_stack)
                     })?;
                 }
 
                 Instruction::PopTable => {
                     let mut instance = self.stack_pop();
                     let table = get_table_mut(&mut instance).map_err(|err| {
-                        payload_to_error(err, *instr_ptr, &self.runtime_data.call_stack)
+                        payload_to_error(err, src_ptr, &self.runtime_data.call_stack)
                     })?;
                     let value = table.pop().map_err(|err| {
-                        payload_to_error(err, *instr_ptr, &self.runtime_data.call_stack)
+                        payload_to_error(err, src_ptr, &self.runtime_data.call_stack)
                     })?;
                     self.stack_push(value).map_err(|err| {
-                        payload_to_error(err, *instr_ptr, &self.runtime_data.call_stack)
+                        payload_to_error(err, src_ptr, &self.runtime_data.call_stack)
                     })?;
                 }
                 Instruction::SetUpvalue => {
                     instr_execution::write_upvalue(self, &program.bytecode, instr_ptr).map_err(
-                        |err| payload_to_error(err, *instr_ptr, &self.runtime_data.call_stack),
+                        |err| payload_to_error(err, src_ptr, &self.runtime_data.call_stack),
                     )?;
                 }
                 Instruction::ReadUpvalue => {
                     instr_execution::read_upvalue(self, &program.bytecode, instr_ptr).map_err(
-                        |err| payload_to_error(err, *instr_ptr, &self.runtime_data.call_stack),
+                        |err| payload_to_error(err, src_ptr, &self.runtime_data.call_stack),
                     )?;
                 }
                 Instruction::RegisterUpvalue => {
                     instr_execution::register_upvalue(self, &program.bytecode, instr_ptr).map_err(
-                        |err| payload_to_error(err, *instr_ptr, &self.runtime_data.call_stack),
+                        |err| payload_to_error(err, src_ptr, &self.runtime_data.call_stack),
                     )?;
                 }
                 Instruction::CloseUpvalue => {
                     instr_execution::close_upvalues(self).map_err(|err| {
-                        payload_to_error(err, *instr_ptr, &self.runtime_data.call_stack)
+                        payload_to_error(err, src_ptr, &self.runtime_data.call_stack)
                     })?;
                 }
             }
